@@ -50,7 +50,11 @@ type vxCkptConfig struct {
 }
 
 func vxCkptDB() *vxCkptConfig {
-	ps := vxPageSizes[vx.Choose("pagesize", 0, 7)]
+	psi := 3
+	if vx.Param("ONEPS", 0) == 0 {
+		psi = vx.Choose("pagesize", 0, 7)
+	}
+	ps := vxPageSizes[psi]
 	db := NewDB(vx.TempDir() + "/db")
 	db.pageSize = ps
 	c := &vxCkptConfig{db: db, frame: int64(WALFrameHeaderSize + ps)}
@@ -187,4 +191,67 @@ func VxC13Busy() {
 		vx.Assert("escalation-is-passive-then-truncate", vxCkptModes[0] == CheckpointModePassive && vxCkptModes[1] == CheckpointModeTruncate)
 		vx.Assert("escalation-only-at-emergency-threshold", before >= eff)
 	}
+}
+
+// VxC13Rounds: the real syncLocked (executor set-up, the gate in front of
+// checkpointIfNeeded, the flag updates) over two rounds: a round that copies a
+// burst, whose checkpoint may be refused (another connection holds a lock for a
+// moment), followed by an idle round that copies nothing. With nothing pinned
+// during the second round, the WAL must be below the lowest threshold after it
+// (or a checkpoint was requested in it): a due checkpoint that was skipped is
+// retried by the next sync even if that sync has nothing to copy.
+func VxC13Rounds() {
+	c := vxCkptDB()
+	db := c.db
+	defer db.f.Close()
+	vx.FSWriteFile(db.path+"-wal", make([]byte, WALHeaderSize))
+	e := vxNewSQLEnv(false)
+	e.pageSize = int64(db.pageSize)
+	defer func() { vxSQLHandler = nil }()
+	db.Replica = NewReplicaWithClient(db, &vxStoreClient{})
+	db.Replica.MonitorEnabled = false
+	db.MonitorInterval = 0
+	vx.FSMkdirAll(db.LTXLevelDir(0))
+	ctx := context.Background()
+	if err := db.init(ctx); err != nil {
+		panic(err)
+	}
+	before := vx.Range("framesBefore", 1, 1<<18-1)
+	after := vx.Range("framesAfter", 1, 1<<18-1)
+	vx.Assume(before <= after)
+	db.syncState.lastSyncedWALOffset = c.walSize(before)
+	vxCkptStub, vxCkptModes = true, nil
+	defer func() { vxCkptStub = false }()
+	// round 1: the burst is copied; a requested checkpoint succeeds or is refused
+	refused := vx.Fault("firstCheckpointRefused")
+	vxCkptOutcome = func(mode string) int {
+		if refused {
+			if mode == CheckpointModePassive {
+				return 1
+			}
+			return 2
+		}
+		return 0
+	}
+	vxGhostScript = []vxGhostRound{{orig: c.walSize(before), size: c.walSize(after), synced: true}}
+	defer func() { vxGhostScript = nil }()
+	_, err := db.syncLocked(ctx, 0)
+	vx.Assert("round-with-refused-checkpoint-is-not-an-error", err == nil)
+	if err != nil {
+		return
+	}
+	// round 2: idle; nothing is pinned now
+	vxCkptOutcome = func(string) int { return 0 }
+	size1 := db.syncState.lastSyncedWALOffset
+	requestedBefore := len(vxCkptModes)
+	vxGhostScript = []vxGhostRound{{orig: size1, size: size1, synced: false}}
+	_, err = db.syncLocked(ctx, 0)
+	vx.Assert("idle-round-is-not-an-error", err == nil)
+	if err != nil {
+		return
+	}
+	frames := uint64((db.syncState.lastSyncedWALOffset - WALHeaderSize) / c.frame)
+	vx.Known("H5b", vx.IteU64(c.trN == 0, DefaultTruncatePageN, c.trN) == 1)
+	vx.Assert("wal-bounded-after-the-idle-round", vx.Or(frames < c.lowest, frames <= 1))
+	_ = requestedBefore
 }
